@@ -124,6 +124,14 @@ func (r *Run) RunScenario(sc *Scenario) {
 				for i, s := range cs.Srcs {
 					rs[i] = r.Cfg.Pool.Exec(s)
 				}
+				for _, x := range rs {
+					if x.Micros > 5000000 {
+						fmt.Printf("NOTE: slow case (%.1fs): %s\n", float64(x.Micros)/1e6, oneLine(cs.Key))
+					}
+					if x.Timeout {
+						fmt.Printf("NOTE: no answer within %v for case %s\n", r.Cfg.Pool.OpTimeout, oneLine(cs.Key))
+					}
+				}
 				v := cs.Judge(rs)
 				r.mu.Lock()
 				st.Cases++
